@@ -50,7 +50,7 @@ class Programs(Part):
 
     def budget(self, tier):
         return {"quick": dict(examples=500, shards=6, seconds=80),
-                "thorough": dict(examples=4000, shards=16, seconds=900)}[tier]
+                "thorough": dict(examples=4000, shards=16, seconds=600)}[tier]
 
     def strategy(self, tier):
         return gen.corpus_case(max_extent=3)
@@ -230,7 +230,7 @@ class MetricsPrograms(Part):
 
     def budget(self, tier):
         return {"quick": dict(examples=200, shards=3, seconds=80),
-                "thorough": dict(examples=2500, shards=8, seconds=900)}[tier]
+                "thorough": dict(examples=2500, shards=8, seconds=600)}[tier]
 
     def strategy(self, tier):
         from .. import gen_metrics
